@@ -2,7 +2,7 @@
    (style Q / discrete). *)
 From Coq Require Import Reals Lra QArith Qabs Sorting.Sorted.
 From EsVerif.Common Require Import Base.
-From EsVerif.C19 Require Import Model ModelQ Spec ProofsGeo ProofsSampler ProofsSampler2 Exec ExecSound.
+From EsVerif.C19 Require Import Model ModelLoops ModelQ Spec ProofsGeo ProofsGeo2 ProofsSampler ProofsSampler2 Exec ExecSound.
 
 (* ================================================================ sky positions (over R) *)
 
@@ -20,6 +20,15 @@ Theorem C19_box_maps_monotone : forall ra0 ra1 dec0 dec1 u1 u1' u2 u2',
 Proof.
   intros. split; [apply randsphere_dec_monotone; assumption | apply randsphere_ra_monotone; assumption].
 Qed.
+
+(* "uniform-in-sin(dec)": the longitude is affine in u1, the sine of the latitude affine in u2
+   (from sin(dec1) at u2 = 0 to sin(dec0) at u2 = 1) *)
+Theorem C19_box_uniform_in_sin_dec : forall ra0 ra1 dec0 dec1 u1 u2,
+  valid_box ra0 ra1 dec0 dec1 -> unit_dev u2 ->
+  let p := randsphere_R ra0 ra1 dec0 dec1 u1 u2 in
+  (fst p = ra0 + (ra1 - ra0) * u1
+   /\ sin (d2r (snd p)) = sin (d2r dec1) + (sin (d2r dec0) - sin (d2r dec1)) * u2)%R.
+Proof. exact randsphere_uniform_in_sin. Qed.
 
 (* Unrotated formula: the point lies at exactly sqrt(u) * rad from the centre (spherical law of
    cosines), and that is the radius returned. *)
@@ -42,6 +51,16 @@ Theorem C19_cap_rot_preserves : forall ra dec rad u upsi,
   let '(ra2, dec2, r) := randcap_rot ra dec rad u upsi in
   sep_deg ra dec ra2 dec2 = (sqrt u * rad)%R /\ r = (sqrt u * rad)%R.
 Proof. exact cap_distance_rot. Qed.
+
+(* atbound's two `while` loops (ModelLoops, on fuel) terminate within two iterations on every
+   longitude randcap hands them (phi - Dphi with phi = deg2rad(ra), Dphi = arctan2(..) in (-pi, pi])
+   and return what the unrolled Model.atbound returns, so the theorems below are about the loops *)
+Theorem C19_atbound_loops_terminate : forall fuel ra y x, (2 <= fuel)%nat -> (0 <= ra <= 360)%R ->
+  atbound_loops fuel (r2d (d2r ra - atan2 y x)) = Some (atbound (r2d (d2r ra - atan2 y x))).
+Proof.
+  intros fuel ra y x Hf Hra. apply atbound_loops_eq; [exact Hf|].
+  apply atbound_arg_range; [exact Hra|apply atan2_bound].
+Qed.
 
 (* Both branches, every centre (poles and seam included), every radius up to 180 deg: the
    point is within rad of the centre, has longitude in [0,360] and latitude in [-90,90], and
